@@ -19,4 +19,24 @@ structure Machine where
   init : σ
   step : σ → List String → σ × String
 
+/-- the stdin/stdout loop of every `pkmodel-cXX`: one output line per op line; a line starting with
+`#` is a case marker: it is echoed and resets the state -/
+partial def loop (m : Machine) (h : IO.FS.Stream) (out : IO.FS.Stream) (s : m.σ) : IO Unit := do
+  let line ← h.getLine
+  if line.isEmpty then return ()
+  let l := line.dropRightWhile (fun c => c == '\n' || c == '\r')
+  if l.startsWith "#" then
+    out.putStrLn l
+    loop m h out m.init
+  else
+    let (s', o) := m.step s (words l)
+    out.putStrLn o
+    loop m h out s'
+
+def runMachine (m : Machine) : IO UInt32 := do
+  let out ← IO.getStdout
+  loop m (← IO.getStdin) out m.init
+  out.flush
+  return 0
+
 end Pk.Drv
